@@ -634,6 +634,10 @@ class StmtMixin:
         self._havoc_types = {k.split('.')[-1]: v for k, v in spec.types.items() if '.' in k}
         self._havoc_fields = {}
         for loc in spec.modifies:
+            if loc == '$calls':
+                self.havoc_cell(VPtr(0), node)
+                self._havoc_set.add(0)
+                continue
             locnode = self.parse_spec(loc)
             if isinstance(locnode, ast.Attribute):
                 base = self.res(self.eval_spec(locnode.value))
